@@ -1505,7 +1505,9 @@ func AggrFunExpr(query *Query, current Map, expr sqlparser.AggrFunc, opts ...Exp
 		}
 		return result, nil
 	}
-	rs, ok := query.singletonExecutions[name]
+	// one memo entry per aggregate call, not per function name
+	key := fmt.Sprintf("%s(%s)", name, sqlparser.String(expr))
+	rs, ok := query.singletonExecutions[key]
 	if !ok {
 		// whole-table aggregates read the rows that passed WHERE when the caller supplies them
 		source := map[string]any{"*": query.from}
@@ -1520,7 +1522,7 @@ func AggrFunExpr(query *Query, current Map, expr sqlparser.AggrFunc, opts ...Exp
 		if err != nil {
 			return nil, err
 		}
-		query.singletonExecutions[name] = result
+		query.singletonExecutions[key] = result
 		return result, nil
 	}
 	return rs, nil
